@@ -17,6 +17,9 @@ structure AOp where
   builtin : Nat              -- builtin operator code
   inputs : List Nat          -- tensor indices (−1 entries already removed)
   outputs : List Nat
+  /-- Ethos-U operators: `(region, lo, hi)` of every write of the decoded command stream (OFM hull of each
+      kernel operation, destination of each DMA); `none` = not supplied (every output counts as written) -/
+  writes : Option (List (Nat × Nat × Nat)) := none
 deriving Repr, DecidableEq, Inhabited
 
 structure Plan where
@@ -58,6 +61,48 @@ def handoverAllowed (p : Plan) (a b : Nat) (ta tb : ATensor) : Bool :=
     else if o.ethosu then true
     else memoryOnly o.builtin && ta.offset == tb.offset && ta.size == tb.size
 
+/-- arena bytes touched by a stream write: region 1 is the arena, region 2 the fast-scratch tensor (at that
+    tensor's arena offset when it has one; a separate memory otherwise) -/
+def arenaRange (p : Plan) (w : Nat × Nat × Nat) : Option (Nat × Nat) :=
+  if w.1 = 1 then some (w.2.1, w.2.2)
+  else if w.1 = 2 then
+    match p.fast.bind (fun f => p.tensors[f]?) |>.bind (·.offset) with
+    | some off => some (off + w.2.1, off + w.2.2)
+    | none => none
+  else none
+
+/-- does the command stream of operator `o` write a byte of `t`? -/
+def writtenBy (p : Plan) (o : AOp) (t : ATensor) : Bool :=
+  match o.writes, t.offset with
+  | none, _ => true
+  | _, none => true
+  | some ws, some off =>
+    ws.any fun w => match arenaRange p w with
+      | some (lo, hi) => lo < off + t.size && off < hi
+      | none => false
+
+/-- An Ethos-U operator whose stream never writes output `b` leaves in `b` whatever the bytes held: `b` is
+    the same buffer as an input `a` at exactly the same bytes (Vela emits no operation for an operator that
+    turned out to be the identity). Both may be live together; anything else that overlaps either of them
+    is still judged on its own. -/
+def aliasAllowed (p : Plan) (a b : Nat) (ta tb : ATensor) : Bool :=
+  ta.offset == tb.offset && ta.size == tb.size &&
+  p.ops.any fun o => o.ethosu && o.inputs.contains a && o.outputs.contains b && !(writtenBy p o tb)
+
+/-- outputs of Ethos-U operators that the stream never writes and that are no alias of an input -/
+def undefinedOutputs (p : Plan) : List String :=
+  p.ops.zipIdx.flatMap fun (o, k) =>
+    if !o.ethosu then [] else
+    o.outputs.filterMap fun b =>
+      match p.tensors[b]? with
+      | some tb =>
+        if tb.offset.isNone || tb.size = 0 || writtenBy p o tb then none
+        else if o.inputs.any (fun a => match p.tensors[a]? with
+            | some ta => ta.offset == tb.offset && ta.size == tb.size
+            | none => false) then none
+        else some s!"output {b} of Ethos-U operator {k} is never written by its command stream and is no input's buffer"
+      | none => none
+
 def bytesOverlap (ta tb : ATensor) : Bool :=
   match ta.offset, tb.offset with
   | some oa, some ob => ta.size > 0 && tb.size > 0 && oa < ob + tb.size && ob < oa + ta.size
@@ -74,7 +119,8 @@ def conflicts (p : Plan) : List (Nat × Nat) :=
   let l := planned p
   l.flatMap fun (a, ta) => l.filterMap fun (b, tb) =>
     if a < b && bytesOverlap ta tb && liveOverlap p a b &&
-       !(handoverAllowed p a b ta tb) && !(handoverAllowed p b a tb ta) then some (a, b) else none
+       !(handoverAllowed p a b ta tb) && !(handoverAllowed p b a tb ta) &&
+       !(aliasAllowed p a b ta tb) && !(aliasAllowed p b a tb ta) then some (a, b) else none
 
 def misaligned (p : Plan) : List Nat :=
   (planned p).filterMap fun (i, t) => match t.offset with
@@ -113,6 +159,7 @@ structure Verdict where
 deriving Repr
 
 def check (p : Plan) : Verdict :=
-  { conflicts := conflicts p, misaligned := misaligned p, scratch := scratchProblems p, required := requiredExtent p }
+  { conflicts := conflicts p, misaligned := misaligned p, scratch := scratchProblems p ++ undefinedOutputs p,
+    required := requiredExtent p }
 
 end VelaVerif.Arena
